@@ -433,3 +433,97 @@ def falsify(c, mod, label, clauses, limit=None, seed=0, stop_after=3):
         if len(wit) >= stop_after * max(1, len(clauses)):
             break
     return wit, n, errs
+
+
+# ------------------------------------------------------------------------------------------ method units
+class OldDict(dict):
+    """snapshot of a dict in the entry state that remembers which object it was"""
+    _orig = None
+
+
+class _OldCollector(ast.NodeVisitor):
+    def __init__(self):
+        self.exprs = {}
+
+    def visit_Call(self, node):
+        if isinstance(node.func, ast.Name) and node.func.id == "old" and len(node.args) == 1:
+            self.exprs[ast.unparse(node.args[0])] = node.args[0]
+        self.generic_visit(node)
+
+
+class _OldRewriter(ast.NodeTransformer):
+    def visit_Call(self, node):
+        self.generic_visit(node)
+        if isinstance(node.func, ast.Name) and node.func.id == "old" and len(node.args) == 1:
+            return ast.Subscript(value=ast.Name(id="__old__", ctx=ast.Load()),
+                                 slice=ast.Constant(value=ast.unparse(node.args[0])), ctx=ast.Load())
+        return node
+
+
+def _snapshot(x):
+    if isinstance(x, dict):
+        o = OldDict(x)
+        o._orig = x
+        return o
+    if isinstance(x, list):
+        return list(x)
+    return x
+
+
+def method_ghosts():
+    def same_object(a, b):
+        if isinstance(b, OldDict):
+            return a is b._orig
+        if isinstance(a, OldDict):
+            return b is a._orig
+        return a is b
+    return {"dict_key": lambda d, i: list(d)[i], "dict_wf": lambda d: True, "same_object": same_object,
+            "has_key": lambda d, k: k in d}
+
+
+def run_method_scenarios(c, mod, clauses, stop_after=4):
+    """c.scenarios(mod) -> [(label, factory() -> (callable, {param: value}))].  Evaluates the clauses natively on the real
+    method; `old(expr)` is evaluated before the call."""
+    from .replay import native_env
+    wit, errs, n = [], [], 0
+    for label, factory in c.scenarios(mod):
+        n += 1
+        fn, args = factory()
+        olds = {}
+        env0 = native_env(mod)
+        env0.update(ghost_env(6))
+        env0.update(method_ghosts())
+        env0.update(args)
+        coll = _OldCollector()
+        trees = {}
+        for name, expr in clauses.items():
+            t = ast.parse(expr.strip(), mode="eval")
+            coll.visit(t)
+            trees[name] = t
+        for src, node in coll.exprs.items():
+            try:
+                olds[src] = _snapshot(eval(compile(ast.Expression(body=node), "<old>", "eval"), env0))  # noqa: S307
+            except Exception as e:  # noqa: BLE001
+                olds[src] = Undefined()
+        try:
+            result = fn(**args)
+            out = {"returned": True, "raised": False, "result": result, "exc": Undefined()}
+            desc = "returned " + _short(result)
+        except Exception as e:  # noqa: BLE001
+            out = {"returned": False, "raised": True, "result": Undefined(), "exc": e}
+            desc = f"raised {type(e).__name__}: {_short(e)}"
+        env = dict(env0)
+        env.update(out)
+        env["__old__"] = olds
+        for name, t in trees.items():
+            t2 = ast.fix_missing_locations(_Lazy().visit(_OldRewriter().visit(t)))
+            try:
+                val = bool(eval(compile(t2, "<clause>", "eval"), env))  # noqa: S307
+            except Exception as e:  # noqa: BLE001
+                errs.append((label, f"{name}: {type(e).__name__}: {e}"))
+                continue
+            if val is not True:
+                wit.append({"clause": name, "signature": label, "input": label, "native_outcome": desc})
+        if len(wit) >= stop_after * max(1, len(clauses)):
+            break
+    return wit, n, errs
